@@ -1,5 +1,5 @@
 (* C12 — proofs about the ledger: sequential facts (Part A) and the interleaving system (Part B). *)
-From Sdns Require Import Common.Base Gen.C12 C12.Model.
+From Sdns Require Import Common.Base Common.GoList Gen.C12 C12.Model.
 Open Scope N_scope.
 
 (* ------------------------------------------------------------------ translator ties *)
@@ -111,6 +111,59 @@ Proof.
   { intros v d Hv. unfold cfg_limit. destruct (N.eqb_spec v 0); [contradiction|reflexivity]. }
   destruct (N.eqb_spec mt 0); [|destruct (N.eqb_spec mt 1); [|destruct (N.eqb_spec mt 2); [|destruct (N.eqb_spec mt 3)]]];
     intros H; inversion H; subst; cbn; repeat split; intros; try discriminate; try lia; auto.
+Qed.
+
+(* config.RecursionFirewallConfig.Validate as translated from the source (error = true).  The step in front of
+   policy_of_config: MustRecursionWorkPolicyFromConfig panics exactly when Validate reports an error, so
+   (1) a mode text other than the three names policy_of_config knows is refused, whatever the limits are;
+   (2) a normalised configuration — a known mode, eight non-zero limits, failure-cache fields in range —
+       is accepted as it is: Validate never asks for a limit to be anything but non-zero, so the configured
+       number is the enforced number (configured_limits_are_the_policy). *)
+Definition name_off : list N := [111; 102; 102].
+Definition name_shadow : list N := [115; 104; 97; 100; 111; 119].
+Definition name_enforce : list N := [101; 110; 102; 111; 114; 99; 101].
+Definition known_mode (m : list N) : Prop := m = name_off \/ m = name_shadow \/ m = name_enforce.
+Definition limits_set (c : T_RecursionFirewallConfig) : Prop :=
+  T_RecursionFirewallConfig_MaxOutboundQueries c <> 0 /\ T_RecursionFirewallConfig_MaxInternalQueries c <> 0 /\
+  T_RecursionFirewallConfig_MaxDNSKEYCandidates c <> 0 /\ T_RecursionFirewallConfig_MaxRRsetSignatureChecks c <> 0 /\
+  T_RecursionFirewallConfig_MaxSignatureChecks c <> 0 /\ T_RecursionFirewallConfig_MaxDSDigests c <> 0 /\
+  T_RecursionFirewallConfig_MaxNSEC3Hashes c <> 0 /\ T_RecursionFirewallConfig_MaxConcurrentCrypto c <> 0.
+
+Lemma gen_validate_refuses : forall c, go_RecursionFirewallConfig_Validate c = false ->
+  known_mode (T_RecursionFirewallConfig_Mode c) /\ limits_set c.
+Proof.
+  intros c. unfold go_RecursionFirewallConfig_Validate, known_mode, limits_set.
+  destruct (go_list_eqb N.eqb (T_RecursionFirewallConfig_Mode c) _) eqn:E1;
+  [|destruct (go_list_eqb N.eqb (T_RecursionFirewallConfig_Mode c) [115; _; _; _; _; _]%N) eqn:E2;
+    [|destruct (go_list_eqb N.eqb (T_RecursionFirewallConfig_Mode c) [101; _; _; _; _; _; _]%N) eqn:E3]];
+  cbn [orb]; try discriminate.
+  all: repeat match goal with |- context [N.eqb ?a 0%N] => destruct (N.eqb_spec a 0%N); [discriminate|] end.
+  all: intros _; split; [|repeat split; assumption].
+  - left. apply go_bytes_eqb_eq. exact E1.
+  - right. left. apply go_bytes_eqb_eq. exact E2.
+  - right. right. apply go_bytes_eqb_eq. exact E3.
+Qed.
+
+Lemma gen_validate_accepts : forall c, known_mode (T_RecursionFirewallConfig_Mode c) -> limits_set c ->
+  (0 < T_RecursionFirewallConfig_FailureCacheSize c)%Z ->
+  (1000000000 <= T_Duration_Duration (T_RecursionFirewallConfig_FailureCacheMinTTL c))%Z ->
+  (T_Duration_Duration (T_RecursionFirewallConfig_FailureCacheMinTTL c) <= T_Duration_Duration (T_RecursionFirewallConfig_FailureCacheMaxTTL c))%Z ->
+  (T_Duration_Duration (T_RecursionFirewallConfig_FailureCacheMaxTTL c) <= 300000000000)%Z ->
+  go_RecursionFirewallConfig_Validate c = false.
+Proof.
+  intros c Hm (H1 & H2 & H3 & H4 & H5 & H6 & H7 & H8) Hs Hmin Hle Hmax.
+  unfold go_RecursionFirewallConfig_Validate.
+  assert (Hk : (go_list_eqb N.eqb (T_RecursionFirewallConfig_Mode c) [111; 102; 102]%N
+             || go_list_eqb N.eqb (T_RecursionFirewallConfig_Mode c) [115; 104; 97; 100; 111; 119]%N
+             || go_list_eqb N.eqb (T_RecursionFirewallConfig_Mode c) [101; 110; 102; 111; 114; 99; 101]%N)%bool = true).
+  { destruct Hm as [-> | [-> | ->]]; reflexivity. }
+  rewrite Hk.
+  repeat match goal with |- context [N.eqb ?a 0%N] => destruct (N.eqb_spec a 0%N); [contradiction|] end.
+  destruct (Z.leb_spec (T_RecursionFirewallConfig_FailureCacheSize c) 0); [lia|].
+  destruct (Z.ltb_spec (T_Duration_Duration (T_RecursionFirewallConfig_FailureCacheMinTTL c)) 1000000000); [lia|].
+  destruct (Z.ltb_spec (T_Duration_Duration (T_RecursionFirewallConfig_FailureCacheMaxTTL c)) (T_Duration_Duration (T_RecursionFirewallConfig_FailureCacheMinTTL c))); [lia|].
+  destruct (Z.ltb_spec 300000000000 (T_Duration_Duration (T_RecursionFirewallConfig_FailureCacheMaxTTL c))); [lia|].
+  reflexivity.
 Qed.
 
 (* ------------------------------------------------------------------ Part A: sequential facts *)
